@@ -89,6 +89,18 @@ theorem volume_line_sets (P : List Nat) : (P.mergeSort natLe).Perm P := List.mer
 /-- the fuel the file reader uses (number of words + 5) is enough -/
 theorem reader_fuel_enough (ws : List String) : 5 ≤ ws.length + 5 := by omega
 
+open T4V.WR in
+/-- **from the bytes of the line**: the text `VolumeT4.__str__` produces, followed by a blank and `ENDV`, splits at
+blanks into the words of the volume and `ENDV`; hence the reader recovers the volume from the text itself (the
+`VOLU id` prefix and the `//` comment are cut off by the line reader before) -/
+theorem volume_line_text_roundtrip (ctx : String) (P M : List Nat) (ops : Option (OpKind × List Nat)) (fict : Bool)
+    (fuel : Nat) (hf : 5 ≤ fuel) :
+    readBody ctx fuel (words (volLine P M (ops.map fun x => (opName x.1, x.2)) fict ++ " ENDV")).tail {}
+      = { pluses := P.mergeSort natLe, minuses := M.mergeSort natLe, op := ops, fictive := fict, ended := true,
+          errs := [] } := by
+  rw [words_volLine]
+  exact volume_line_roundtrip ctx P M ops fict fuel hf
+
 /-- **a GEOMCOMP line is read back exactly**: name, declared count = number of volumes, the volumes in order, no
 complaint — for every composition name and every list of volume numbers -/
 theorem geomcomp_line_roundtrip (name : String) (ids : List Nat) :
